@@ -153,7 +153,8 @@ class H(object):
             self.by_alloc_addr = {}
         op = rnd.choice(['new', 'new', 'alias', 'gcwrap', 'gcwrap', 'gcchain', 'gcnone',
                          'release', 'with', 'drop', 'drop', 'drop', 'collect', 'alloc', 'alloc',
-                         'frombuf', 'resize', 'handle', 'fromhandle', 'rerelease', 'useafter'])
+                         'frombuf', 'frombuf_fail', 'resize', 'handle', 'fromhandle', 'rerelease',
+                         'useafter'])
         key = (op,)
         if op == 'new':
             kind = rnd.choice(['struct', 'array'])
@@ -273,6 +274,29 @@ class H(object):
             o.src = src
             o.src_ref = weakref.ref(src)
             self.check_resize(o, False, 'right after from_buffer')
+        elif op == 'frombuf_fail':
+            # a failing from_buffer() must not leave the source export-locked
+            # or referenced
+            src = BA(b'0123456789')
+            r = weakref.ref(src)
+            T = rnd.choice(['int[64]', 'char[11]', 'long long[2]'])
+            try:
+                ffi.from_buffer(T, src)
+                self.bad('from_buffer-too-small-accepted', "from_buffer(%r, <10 bytes>) accepted" % T)
+            except ValueError:
+                pass
+            try:
+                src.append(1)
+            except BufferError:
+                self.bad('export-lock-not-released', 'source of a *failed* from_buffer(%r) is '
+                         'still export-locked' % T)
+            del src
+            if r() is not None:
+                gc.collect()
+                if r() is not None:
+                    self.bad('from_buffer-source-leaked', 'source of a failed from_buffer(%r) is '
+                             'kept alive' % T)
+            key = (op, T)
         elif op == 'resize':
             w = self.pick(('frombuf',))
             if w is None:
